@@ -85,7 +85,16 @@ def run_one(src, kw, path, rng):
     except ValueError as e:
         res["status"] = "skipped:config-conflict" if "Conflicting cover lines" in str(e) else f"skipped:instrumentation-error:{type(e).__name__}"
         return res
-    except Exception as e:  # noqa: BLE001  (instrumentation defects belong to C01)
+    except Exception as e:  # noqa: BLE001  (instrumentation defects belong to C01 ...)
+        import traceback
+
+        frames = [f.filename for f in traceback.extract_tb(e.__traceback__)]
+        if any(f.endswith("instrumentation/controlflow.py") for f in frames) and not any("version/python3" in f for f in frames):
+            # ... unless the CFG / (covered) CDG construction itself raises: then no goal graph can be built
+            res["status"] = "ok-but-no-cdg"
+            res["fails"] = [(f"build:controlflow:{type(e).__name__}",
+                             f"CFG/CDG construction raised {type(e).__name__}: {str(e)[:120]}; no goal graph can be built for the module")]
+            return res
         res["status"] = f"skipped:instrumentation-error:{type(e).__name__}"
         return res
     out, graph, ffs = I.dump_module(sp, captured)
@@ -291,6 +300,12 @@ def run(ctx: vlib.Ctx):
         results = pool.map(_job, args, chunksize=4)
     for idx, ((src, kw, origin), r) in enumerate(zip(jobs, results)):
         ctx.count("status:" + r["status"])
+        if r["status"] == "ok-but-no-cdg":
+            n_fail += 1
+            failing.add(idx)
+            for sig, msg in r["fails"]:
+                ctx.fail(sig, f"{origin}: {msg}", {"origin": origin, "src": src, "to_cover": kw})
+            continue
         if r["status"] != "ok":
             continue
         out = r["out"]
